@@ -1025,6 +1025,152 @@ Proof.
   eapply collapse_weights_zero_members; eauto.
 Qed.
 
+(* ------------------------------------------------------------------ additions *)
+(* Python index semantics of the support surgery: non-negative entries address from the front, negative ones from the end *)
+Lemma pyidx_spec n z j :
+  pyidx n z = Some j <->
+  ((0 <= z)%Z /\ Z.to_nat z = j \/ (z < 0)%Z /\ (0 <= Z.of_nat n + z)%Z /\ Z.to_nat (Z.of_nat n + z) = j).
+Proof.
+  unfold pyidx. cbv zeta. destruct (z <? 0)%Z eqn:E1; cbv iota.
+  - apply Z.ltb_lt in E1. destruct (Z.of_nat n + z <? 0)%Z eqn:E2.
+    + apply Z.ltb_lt in E2. split; [discriminate|]. intros [[H _]|(_ & H & _)]; lia.
+    + apply Z.ltb_ge in E2. split.
+      * intros H; injection H as <-. right; auto.
+      * intros [[H _]|(_ & _ & H)]; [lia|now rewrite H].
+  - rewrite E1. apply Z.ltb_ge in E1. split.
+    + intros H; injection H as <-. left; auto.
+    + intros [[_ H]|(H & _)]; [now rewrite H|lia].
+Qed.
+Lemma in_index_spec n ix i :
+  in_index n ix i = true <->
+  exists z, In z ix /\ ((0 <= z)%Z /\ Z.to_nat z = i \/ (z < 0)%Z /\ (0 <= Z.of_nat n + z)%Z /\ Z.to_nat (Z.of_nat n + z) = i).
+Proof.
+  unfold in_index. rewrite existsb_exists. split.
+  - intros (z & Hz & H). exists z. split; auto. destruct (pyidx n z) as [j|] eqn:E; [|discriminate].
+    apply Nat.eqb_eq in H. subst. now apply pyidx_spec.
+  - intros (z & Hz & H). exists z. split; auto. apply pyidx_spec in H. rewrite H. apply Nat.eqb_refl.
+Qed.
+
+(* impose_unweighted with index=None zeroes nothing: it is impose_support with index=None *)
+Theorem impose_unweighted_none x w nullable : Rsum w <> 0 ->
+  impose_unweighted NumR None x w nullable = impose_support NumR None x w.
+Proof.
+  intros Hs. unfold impose_unweighted, impose_support. cbn [drop_weights keep_weights]. cbv zeta.
+  rewrite nsum_Rsum. replace (is_zero NumR (Rsum w)) with false by (symmetry; now apply is_zero_false).
+  now rewrite andb_false_r.
+Qed.
+
+(* nullable=False and nothing left outside [index]: the remaining positions share the total weight equally *)
+Lemma ones_outside_length index w : length (ones_outside NumR index w) = length w.
+Proof. destruct index; simpl; [apply length_map_enumerate|apply map_length]. Qed.
+Lemma nth_ones_outside ix w i : (i < length w)%nat ->
+  nth i (ones_outside NumR (Some ix) w) 0 = if in_index (length w) ix i then 0 else 1.
+Proof. intros H. cbn [ones_outside]. now rewrite nth_map_enumerate. Qed.
+
+Theorem impose_unweighted_refilled_spec ix x w :
+  length x = length w -> Rsum w <> 0 -> Rsum (drop_weights NumR (Some ix) w) = 0 ->
+  Rsum (ones_outside NumR (Some ix) w) <> 0 ->
+  exists y wts c,
+    impose_unweighted NumR (Some ix) x w false = Some (y, wts) /\ c <> 0 /\ length wts = length w /\
+    length y = length x /\
+    (forall i, (i < length w)%nat -> nth i wts 0 = if in_index (length w) ix i then 0 else c) /\
+    Rsum wts = Rsum w /\ mean NumR y (Some wts) = mean NumR x (Some w).
+Proof.
+  intros Hl Hs Hk Ho. unfold impose_unweighted. rewrite mean_weighted_sum by auto. cbn [obind]. cbv zeta.
+  rewrite !nsum_Rsum.
+  replace (is_zero NumR (Rsum (drop_weights NumR (Some ix) w))) with true
+    by (symmetry; now apply is_zero_true). cbn [negb andb].
+  destruct (reweigh_core (dotR x w / Rsum w) (Rsum w) x (ones_outside NumR (Some ix) w))
+    as (y & wts & H1 & H2 & H3 & H4 & H5 & H6); auto.
+  { now rewrite ones_outside_length. }
+  exists y, wts, (Rsum w / Rsum (ones_outside NumR (Some ix) w)). cbn [one NumR]. change (T NumR) with R in *. rewrite H1.
+  repeat split; auto.
+  - now rewrite H2, map_length, ones_outside_length.
+  - intros i Hi. rewrite H2, nth_scaled. rewrite nth_ones_outside by auto.
+    change (T NumR) with R. destruct (in_index (length w) ix i); ring.
+  - rewrite H6. symmetry. apply mean_weighted_sum; auto.
+Qed.
+
+(* normalize(weights, 'l1'): the absolute values sum to 1 *)
+Lemma Rsum_abs_scale (c : R) (w : list R) : 0 < c -> Rsum (map Rabs (map (fun t => t / c) w)) = Rsum (map Rabs w) / c.
+Proof.
+  intros Hc. rewrite map_map. rewrite (Rsum_map_ext _ (fun t => / c * Rabs t)).
+  - rewrite Rsum_map_scale. unfold Rdiv. lra.
+  - intros t _. unfold Rdiv. rewrite Rabs_mult, (Rabs_pos_eq (/ c)); [lra|].
+    left. now apply Rinv_0_lt_compat.
+Qed.
+Theorem normalize_l1_hits w : Rsum (map Rabs w) <> 0 -> Rsum (map Rabs (normalize_l1 NumR w)) = 1.
+Proof.
+  intros H. unfold normalize_l1. rewrite Lnorm1_textbook.
+  destruct (is_zero NumR (Rsum (map Rabs w))) eqn:E; [apply is_zero_true in E; contradiction|].
+  pose proof (Rsum_abs_nonneg w) as P.
+  change (map (fun t : T NumR => div NumR t (Rsum (map Rabs w))) w) with (map (fun t : R => t / Rsum (map Rabs w)) w).
+  rewrite Rsum_abs_scale by lra. field; auto.
+Qed.
+
+Section SqrtL2.
+  Variable sqrtf : R -> R.
+  Hypothesis sqrt_sq : forall a, 0 <= a -> sqrtf a * sqrtf a = a.
+  (* normalize(weights) (default 'l2'): the squares sum to 1 *)
+  Theorem normalize_l2_hits w : Lnorm2 NumR sqrtf w <> 0 ->
+    Rsum (map (fun t => t * t) (normalize_l2 NumR sqrtf w)) = 1.
+  Proof.
+    intros H. unfold normalize_l2. set (n := Lnorm2 NumR sqrtf w) in *.
+    destruct (is_zero NumR n) eqn:E; [apply is_zero_true in E; contradiction|].
+    rewrite map_map. cbn [div NumR].
+    rewrite (Rsum_map_ext _ (fun t => / (n * n) * (t * t))) by (intros; field; auto).
+    rewrite Rsum_map_scale. unfold n at 1 2. rewrite (Lnorm2_squared sqrtf sqrt_sq).
+    fold n. rewrite <- (Lnorm2_squared sqrtf sqrt_sq w). fold n. field; auto.
+  Qed.
+End SqrtL2.
+
+(* pair=False: all |x_i - x'_j| *)
+Theorem chebyshev_all_textbook x y M : chebyshev_d NumR (absdiff_all NumR x y) = Some M ->
+  (exists a b, In a x /\ In b y /\ M = Rabs (a - b)) /\
+  (forall a b, In a x -> In b y -> Rabs (a - b) <= M).
+Proof.
+  unfold chebyshev_d, absdiff_all. intros H. destruct (lmax_spec _ _ H) as [Hin Hall]. split.
+  - apply in_flat_map in Hin as (a & Ha & Hin). apply in_map_iff in Hin as (b & Hb & Hin). eauto.
+  - intros a b Ha Hb. rewrite Forall_forall in Hall. apply Hall. apply in_flat_map. exists a. split; auto.
+    apply in_map_iff. exists b; auto.
+Qed.
+
+(* ------------------------------------------------------------------ additions 2 *)
+Lemma pyidx_of_nat n i : pyidx n (Z.of_nat i) = Some i.
+Proof. apply pyidx_spec. left. split; [lia|apply Nat2Z.id]. Qed.
+
+(* the basic promise of the docstring, for one proper pair (i,j): the weight of j moves onto i, nothing else changes *)
+Theorem impose_collapse_single_pair i j x w y wts :
+  i <> j -> (i < length w)%nat -> (j < length w)%nat -> length x = length w ->
+  impose_collapse NumR [(Z.of_nat i, Z.of_nat j)] x w = Some (y, wts) ->
+  nth j wts 0 = 0 /\ nth i wts 0 = nth i w 0 + nth j w 0 /\
+  (forall k, k <> i -> k <> j -> nth k wts 0 = nth k w 0) /\ Rsum wts = Rsum w.
+Proof.
+  intros Hij Hi Hj Hl H.
+  assert (Hps : all_some (map (pair_index (length w)) [(Z.of_nat i, Z.of_nat j)]) = Some [(i, j)]).
+  { cbn [map all_some]. unfold pair_index. cbn [fst snd]. now rewrite !pyidx_of_nat. }
+  assert (Hc : connected [(i, j)] = [(i, [j])]) by reflexivity.
+  split; [|split; [|split]].
+  - eapply (impose_collapse_zeroes_members_partial _ _ x w y wts Hps); eauto.
+    + rewrite Hc. intros e e' [<-|[]] [<-|[]]. cbn [fst snd]. intros [E|[]]. congruence.
+    + rewrite Hc. left; reflexivity.
+    + now left.
+  - revert H. unfold impose_collapse. destruct (mean NumR x _) as [m|]; [|discriminate]. cbn [obind].
+    change (T NumR) with R in *. rewrite Hps. cbn [obind]. cbv zeta. rewrite Hc.
+    destruct (in_range (length w) [(i, [j])] && in_range (length x) [(i, [j])])%bool; [|discriminate].
+    destruct (impose_mean NumR m _ _) as [y'|]; [|discriminate]. cbn [obind].
+    intros H; injection H as _ <-. unfold collapse_weights. cbn [fold_left].
+    rewrite nth_set_nth_eq by (rewrite set_nth_length; auto). reflexivity.
+  - intros k Hki Hkj. revert H. unfold impose_collapse. destruct (mean NumR x _) as [m|]; [|discriminate]. cbn [obind].
+    change (T NumR) with R in *. rewrite Hps. cbn [obind]. cbv zeta. rewrite Hc.
+    destruct (in_range (length w) [(i, [j])] && in_range (length x) [(i, [j])])%bool; [|discriminate].
+    destruct (impose_mean NumR m _ _) as [y'|]; [|discriminate]. cbn [obind].
+    intros H; injection H as _ <-. unfold collapse_weights. cbn [fold_left].
+    rewrite !nth_set_nth_neq by auto. reflexivity.
+  - eapply (impose_collapse_keeps_total_partial _ _ x w y wts Hl Hps); eauto.
+    rewrite Hc. constructor; [|constructor]. cbn [fst snd]. intros [E|[]]. congruence.
+Qed.
+
 (* ------------------------------------------------------------------ non-vacuity of the premises *)
 Ltac idx_compute := cbv [keep_weights drop_weights enumerate length seq combine map in_index existsb pyidx Z.ltb Z.compare
   Z.add Z.of_nat Pos.of_succ_nat Pos.succ Z.pos_sub Z.to_nat Pos.to_nat Pos.iter_op Nat.add Nat.eqb fst snd orb Rsum
